@@ -33,10 +33,10 @@ def twin(events):
         bad = None
         if e == "get":
             if ev["f"]:
-                if k == K and ev["i"] == K + 1 and ev["last"] >= maxline and ev["first"] <= ev["last"]:
+                if k == K and ev["i"] == K + 1 and ev["first"] <= ev["last"]:
                     k += 1
                     K += 1
-                    maxline = ev["last"]
+                    maxline = max(maxline, ev["last"])
                 else:
                     bad = "GetFresh"
             else:
